@@ -3,8 +3,8 @@
 package tun
 
 import (
-	"time"
 	"testing"
+	"time"
 
 	"pgregory.net/rapid"
 	"verif/harness/common"
@@ -40,6 +40,6 @@ func TestC10B(t *testing.T) {
 		rec.Sample("bubble", map[string]any{"plan": p})
 		return nil
 	}
-	common.Drive(t, rec, func(rt *rapid.T) *Plan { return genPlanC10B(rt) }, run)
+	common.Drive(t, rec, func(rt *rapid.T) *Plan { return withEdgeChannels(rt, genPlanC10B(rt)) }, run)
 	completed = true
 }
